@@ -3,6 +3,7 @@
 package protocol
 
 import (
+	"github.com/ethereum/go-ethereum/rlp"
 	"github.com/syndtr/goleveldb/leveldb"
 	"github.com/syndtr/goleveldb/leveldb/memdb"
 
@@ -30,3 +31,8 @@ type verifRandSource2 interface {
 }
 
 func verifModelNewSourceNil2(seed int64) verifRandSource2 { return nil }
+
+// aliases so that the harness can name geth's rlp stream type without importing it everywhere
+type rlpStream = rlp.Stream
+
+var rlpEOL = rlp.EOL
